@@ -230,6 +230,27 @@ def body(ck, F, cfg):
             pass
         where = FX.short(F.fn(P_INC)["sp"])
         guards = [it for it in I4.trace.items if it[0] == "guard"]
+        # an early `return;` is a successful exit: the interpreter models it as a conditional continuation, so the final
+        # state is ite(exit condition, unchanged state, extended state).  Peel these off: the exit conditions are checked
+        # below, the remaining rules look at the extended state.
+        from ..alg import Ite as _Ite
+
+        def peel(v, unchanged):
+            conds = []
+            while isinstance(v, _Ite):
+                if unchanged(I4.deref(v.a)):
+                    conds.append(v.cond)
+                    v = I4.deref(v.b)
+                elif unchanged(I4.deref(v.b)):
+                    conds.append(v.cond.negate())
+                    v = I4.deref(v.a)
+                else:
+                    break
+            return conds, v
+
+        exit_conds, cap_after = peel(I4.deref(gens.fields["gens_capacity"]), lambda x: isinstance(x, IntV) and eq(x.e, old))
+        gens.fields["gens_capacity"] = cap_after
+        guards = guards + [("guard", c_) for c_ in exit_conds]
         # the early exits, taken together, must mean exactly `old >= new` (however the comparison is spelled or split)
         from ..alg import Bounds as _B, le as _le, lt as _lt
 
@@ -270,7 +291,11 @@ def body(ck, F, cfg):
 
         bnd = Bounds().with_ub(i, parties)
         for nm, tag in (("G_vec", 71), ("H_vec", 72)):
-            got = gens.fields[nm].index(i, bnd)
+            got = I4.deref(gens.fields[nm]).index(i, bnd) if isinstance(I4.deref(gens.fields[nm]), Vec) else I4.deref(gens.fields[nm])
+            if isinstance(got, _Ite) or exit_conds:
+                before = Vec([Seg(old, lambda j, tag=tag: Pt.atom(sfun(f"CH{tag}")(i, j)))])
+                cs_, got = peel(got, lambda x, before=before: isinstance(x, Vec) and vec_eq(x, before, []))
+                ck.require([c_.key() for c_ in cs_] == [c_.key() for c_ in exit_conds], "R12.2", f"increase:early-return:{nm}", f"{nm} must be left unchanged on exactly the paths that return early; its conditions {[str(c_) for c_ in cs_]} vs the capacity's {[str(c_) for c_ in exit_conds]}", where)
             want = Vec([Seg(new, lambda j, tag=tag: Pt.atom(sfun(f"CH{tag}")(i, j)))])
             I4.bounds.add_le(old, new)
             why = []
